@@ -280,6 +280,10 @@ def parse_bitstruct(it, d, reader, node):
     need(it, reader, n, node)
     f = reader.file
     val = z3.Sum([f.byte(reader.pos + k) * (1 << (8 * (n - 1 - k))) for k in range(n)])   # big-endian bit order
+    direct = None
+    if isinstance(f, BuiltFile) and n == 1 and z3.is_int_value(z3.simplify(reader.pos)):
+        # one byte of build(v) at offset o: bit field (shift, width) of it is (v div 2^(8o+shift)) mod 2^width
+        direct = 8 * z3.simplify(reader.pos).as_long()
     reader._write('pos', z3.simplify(reader.pos + n))
     fields = {}
     shift = total
@@ -288,7 +292,7 @@ def parse_bitstruct(it, d, reader, node):
         shift -= w
         if s.kind == 'Padding':
             continue
-        piece = (val / (1 << shift)) % (1 << w)
+        piece = (val / (1 << shift)) % (1 << w) if direct is None else (f.v / (1 << (direct + shift))) % (1 << w)
         if s.kind == 'Flag':
             fields[s.name] = mk_bool(piece != 0)
         else:
@@ -344,14 +348,31 @@ class BuiltInt:
         self.size = size
 
 
+class BuiltFile:
+    """the bytes of IntNul.build(v): byte i is (v div 256^i) mod 256; a little-endian field of n bytes at a concrete
+    offset o is (v div 256^o) mod 256^n (exact, no byte recomposition needed)"""
+
+    def __init__(self, v, size):
+        self.v = v
+        self.N = z3.IntVal(size)
+        self.F = None
+
+    def byte(self, i):
+        i = z3.simplify(i) if not isinstance(i, int) else z3.IntVal(i)
+        if not z3.is_int_value(i):
+            raise Unsupported('symbolic offset into built bytes')
+        return (self.v / (1 << (8 * i.as_long()))) % 256
+
+    def le(self, off, n):
+        off = z3.simplify(off) if not isinstance(off, int) else z3.IntVal(off)
+        if not z3.is_int_value(off):
+            raise Unsupported('symbolic offset into built bytes')
+        return (self.v / (1 << (8 * off.as_long()))) % (1 << (8 * n))
+
+
 def parse_built(it, d, data, node):
     """parse a declaration out of IntNul.build(v): the file is the little-endian bytes of v"""
-    ctx = it.ctx
-    f = FileModel(ctx.fresh('built'), ctx)
-    ctx.facts.append(f.N == data.size)
-    for k in range(data.size):
-        ctx.facts.append(f.byte(k) == (data.v / (1 << (8 * k))) % 256)
-    r = Reader(f, 0)
+    r = Reader(BuiltFile(data.v, data.size), 0)
     return parse(it, d, r, None, node)
 
 
